@@ -56,3 +56,6 @@
   (vbytes (yty Int) (yval Bytes))
   (vfunc (nty Int) (nval Func))
   (vopq (oty Int) (oval Int))))
+; hint(t): always true; lets a contract mention a term so that quantifier instantiation can see it
+(declare-fun hint (Str) Bool)
+(assert (forall ((x Str)) (! (hint x) :pattern ((hint x)))))
